@@ -96,6 +96,35 @@ def check_literal(text: str):
     return None
 
 
+# the same literal inside other constructs: (template, how to find the literal's value on the resulting stack)
+CONTEXTS = [
+    ("list-item", "⟨{}⟩", lambda st: st[0][0] if len(st) == 1 and len(list(st[0])) == 1 else None),
+    ("list-middle", "⟨1|{}|2⟩", lambda st: list(st[0])[1] if len(st) == 1 and len(list(st[0])) == 3 else None),
+    ("lambda", "λ{};†", lambda st: st[-1] if st else None),
+    ("for-body", "1({})", lambda st: st[-1] if st else None),
+    ("if-branch", "1[{}|0]", lambda st: st[-1] if st else None),
+    ("map-body", "1ƛ{};", lambda st: list(st[0])[0] if len(st) == 1 and len(list(st[0])) == 1 else None),
+]
+
+
+def check_in_contexts(piece: str):
+    """One literal (a single piece with a digit) inside each construct must denote the same value."""
+    want_v = Fraction(piece)
+    for name, tpl, pick in CONTEXTS:
+        text = tpl.replace("{}", piece)
+        try:
+            vals = _values_of(text)
+            v = pick(vals)
+        except BaseException as e:  # noqa: BLE001
+            return (f"C05:context-{name}:raises", f"running {text!r} raised {type(e).__name__}: {e}")
+        got_v = harness.exact_number(v) if v is not None else None
+        if got_v is None:
+            return (f"C05:context-{name}:type", f"literal {piece!r} in {text!r} produced {v!r} ({type(v).__name__}), not an exact number")
+        if got_v != want_v:
+            return (f"C05:context-{name}:value", f"literal {piece!r} in {text!r} produced {v!r} (= {got_v}), expected exactly {want_v}")
+    return None
+
+
 def _nontrivial(text):
     pcs = ref_split(text)
     if len(pcs) >= 2:
@@ -106,11 +135,18 @@ def _nontrivial(text):
     return len(p) >= 2
 
 
-def _do(rec, text, cls):
+def _do(rec, text, cls, contexts=False):
     r = check_literal(text)
     rec.case(key=text, nontrivial=_nontrivial(text), cls=cls)
     if r:
         rec.fail(r[0], {"text": text}, r[1])
+    elif contexts:
+        pcs = ref_split(text)
+        if len(pcs) == 1 and any(c.isdigit() for c in pcs[0]):
+            r = check_in_contexts(pcs[0])
+            rec.case(key=("ctx", text), nontrivial=_nontrivial(text), cls=[cls, "inside-constructs"], n=len(CONTEXTS))
+            if r:
+                rec.fail(r[0], {"text": text, "contexts": True}, r[1])
     return r
 
 
@@ -118,7 +154,7 @@ def _do(rec, text, cls):
 def _shard_ints(rec, arg):
     lo, hi = arg
     for n in range(lo, hi):
-        _do(rec, str(n), "int-exhaustive")
+        _do(rec, str(n), "int-exhaustive", contexts=(n % 41 == 0 or n < 30))
     if lo == 0:
         rec.sample({"literal": str(hi - 1), "pushed": str(Fraction(hi - 1))})
 
@@ -174,12 +210,12 @@ def _shard_hyp(rec, arg):
     seed, n = arg
 
     def t_dec(text):
-        _do(rec, text, "decimal")
+        _do(rec, text, "decimal", contexts=True)
 
     campaign.hyp_run(t_dec, {"text": _dec_strategy()}, seed, n)
 
     def t_big(k):
-        _do(rec, str(k), "int-random")
+        _do(rec, str(k), "int-random", contexts=True)
 
     campaign.hyp_run(t_big, {"k": st.one_of(st.integers(0, 10 ** 60), st.integers(10 ** 6, 10 ** 18))}, seed + 7, max(50, n // 4))
 
@@ -211,4 +247,9 @@ def run(rec, tier, seed):
 
 
 def replay(case):
+    if case.get("contexts"):
+        pcs = ref_split(case["text"])
+        if len(pcs) != 1 or not any(c.isdigit() for c in pcs[0]):
+            return None
+        return check_in_contexts(pcs[0])
     return check_literal(case["text"])
